@@ -687,3 +687,593 @@ Lemma estimator_empty g : gnodes g = [] -> forall k j, estimate_from_dir_perc g 
 Proof.
   intros E k j. unfold estimate_from_dir_perc, sccs. rewrite E. reflexivity.
 Qed.
+
+(* ---------------- graphs built from edge lists ---------------- *)
+Lemma graph_of_adj nodes es u v :
+  In v (gadj (graph_of nodes es false) u) <-> In (u, v) es \/ In (v, u) es.
+Proof.
+  cbn. rewrite in_flat_map. split.
+  - intros [[a b] [He Hv]]. cbn in Hv.
+    destruct (N.eqb a u) eqn:E1.
+    + apply N.eqb_eq in E1. destruct Hv as [Hv|[]]. subst. left. exact He.
+    + destruct (N.eqb b u) eqn:E2; cbn in Hv; [|destruct Hv].
+      apply N.eqb_eq in E2. destruct Hv as [Hv|[]]. subst. right. exact He.
+  - intros [H|H].
+    + exists (u, v). split; [exact H|]. cbn. rewrite N.eqb_refl. left. reflexivity.
+    + exists (v, u). split; [exact H|]. cbn. destruct (N.eqb v u) eqn:E1.
+      * apply N.eqb_eq in E1. subst. left. reflexivity.
+      * rewrite N.eqb_refl. cbn. left. reflexivity.
+Qed.
+
+Lemma graph_of_adj_dir nodes es u v :
+  In v (gadj (graph_of nodes es true) u) <-> In (u, v) es.
+Proof.
+  cbn. rewrite in_flat_map. split.
+  - intros [[a b] [He Hv]]. cbn in Hv. destruct (N.eqb a u) eqn:E1; [|destruct Hv].
+    apply N.eqb_eq in E1. destruct Hv as [Hv|[]]. subst. exact He.
+  - intro H. exists (u, v). split; [exact H|]. cbn. rewrite N.eqb_refl. left. reflexivity.
+Qed.
+
+Lemma graph_of_pred_dir nodes es u v :
+  In v (gpred (graph_of nodes es true) u) <-> In (v, u) es.
+Proof.
+  cbn. rewrite in_flat_map. split.
+  - intros [[a b] [He Hv]]. cbn in Hv. destruct (N.eqb b u) eqn:E1; [|destruct Hv].
+    apply N.eqb_eq in E1. destruct Hv as [Hv|[]]. subst. exact He.
+  - intro H. exists (v, u). split; [exact H|]. cbn. rewrite N.eqb_refl. left. reflexivity.
+Qed.
+
+Lemma edges_from_In g : forall todo seen u v,
+  In (u, v) (edges_from g todo seen) -> In u todo /\ In v (gadj g u).
+Proof.
+  induction todo as [|a t IH]; intros seen u v H; cbn in H; [destruct H|].
+  apply in_app_or in H. destruct H as [H|H].
+  - apply in_map_iff in H. destruct H as [x [E Hx]]. inversion E; subst.
+    apply filter_In in Hx. split; [left; reflexivity|exact (proj1 Hx)].
+  - apply IH in H. split; [right; exact (proj1 H)|exact (proj2 H)].
+Qed.
+
+(* ---------------- percolate_network / estimate_SIR_prob_size ---------------- *)
+(* the kept edges are exactly those whose draw was below p, in order *)
+Definition kept_of (p : Q) (es : list (node * node)) (us : list Q) : list (node * node) :=
+  map fst (filter (fun eu => Qltb (snd eu) p) (combine es us)).
+
+Lemma perc_edges_spec p : forall es us kept r,
+  perc_edges p es us kept = Ok r -> r = kept ++ kept_of p es us /\ (length es <= length us)%nat.
+Proof.
+  induction es as [|e t IH]; intros us kept r H; cbn in H.
+  - inversion H; subst. unfold kept_of. cbn. rewrite app_nil_r. split; [reflexivity|lia].
+  - destruct us as [|u us']; [discriminate|]. apply IH in H. destruct H as [H1 H2].
+    split; [|cbn; lia]. subst r. unfold kept_of. cbn. destruct (Qltb u p); cbn.
+    + rewrite <- app_assoc. reflexivity.
+    + reflexivity.
+Qed.
+
+Lemma perc_edges_total p : forall es us kept, (length es <= length us)%nat ->
+  exists r, perc_edges p es us kept = Ok r.
+Proof.
+  induction es as [|e t IH]; intros us kept H; cbn.
+  - eexists; reflexivity.
+  - destruct us as [|u us']; [cbn in H; lia|]. apply IH. cbn in H. lia.
+Qed.
+
+Lemma kept_of_incl p es us : incl (kept_of p es us) es.
+Proof.
+  intros e H. unfold kept_of in H. apply in_map_iff in H. destruct H as [[e' u] [E H]]. cbn in E. subst e'.
+  apply filter_In in H. destruct H as [H _]. apply in_combine_l in H. exact H.
+Qed.
+
+(* reachable-set sizes of a graph whose adjacency stays inside its node list *)
+Lemma cc_of_spec h : NoDup (gnodes h) -> (forall x, In x (gnodes h) -> incl (gadj h x) (gnodes h)) ->
+  forall u, In u (gnodes h) ->
+  exists c, cc_of h u = Ok c /\ NoDup c /\ incl c (gnodes h) /\ forall x, In x c <-> reach (gadj h) u x.
+Proof.
+  intros Hn Hc u Hu. unfold cc_of.
+  destruct (closure_spec h (gadj h) u Hn Hc Hu) as [r [E [_ [Hi Hr]]]]. rewrite E. cbn.
+  eexists. split; [reflexivity|]. split; [apply NoDup_filter; exact Hn|].
+  split; [intros x Hx; apply filter_In in Hx; exact (proj1 Hx)|].
+  intro x. rewrite filter_In, mem_In, <- Hr. split; [tauto|]. intro H. split; [apply Hi; exact H|exact H].
+Qed.
+
+Lemma largest_cc_spec h : NoDup (gnodes h) -> (forall x, In x (gnodes h) -> incl (gadj h x) (gnodes h)) ->
+  gnodes h <> [] ->
+  exists m, largest_cc_size h = Ok m /\
+    (exists v, In v (gnodes h) /\ card_of (reach (gadj h) v) m) /\
+    (forall v k, In v (gnodes h) -> card_of (reach (gadj h) v) k -> (k <= m)%nat) /\
+    (m <= length (gnodes h))%nat.
+Proof.
+  intros Hn Hc Hne. unfold largest_cc_size, ccs.
+  destruct (classes_loop_spec (cc_of h) (gnodes h) (reach (gadj h))) with (todo := gnodes h) (acc := @nil (list node))
+    as [L [HL [H1 [_ H3]]]].
+  - intros u Hu. destruct (cc_of_spec h Hn Hc u Hu) as [c [E [_ [_ H]]]]. exists c. auto.
+  - apply reach_refl.
+  - apply incl_refl.
+  - intros c [].
+  - rewrite HL. cbn [rbind].
+    assert (HLne : L <> []).
+    { intro E. subst L. destruct (gnodes h) as [|u t]; [contradiction|]. destruct (H3 u (or_introl eq_refl)) as [c [[] _]]. }
+    destruct L as [|c0 L0]; [contradiction|]. exists (maxlen (c0 :: L0)). split; [reflexivity|].
+    assert (Hlg := largest_nonempty (c0 :: L0) HLne).
+    destruct (largest (c0 :: L0)) as [|c lg] eqn:El; [contradiction|].
+    assert (Hc' : In c (largest (c0 :: L0))) by (rewrite El; left; reflexivity).
+    pose proof Hc' as Hc''. unfold largest in Hc''. apply filter_In in Hc''. destruct Hc'' as [HcL Hlen]. apply Nat.eqb_eq in Hlen.
+    destruct (H1 c HcL) as [v [Hv Ev]]. destruct (cc_of_spec h Hn Hc v Hv) as [c' [E' [N' [I' S']]]].
+    rewrite Ev in E'. inversion E'; subst c'.
+    split; [exists v; split; [exact Hv|]; exists c; auto|]. split.
+    + intros w k Hw [l [Nl [Sl Ll]]]. destruct (H3 w Hw) as [cw [HcwL Hwin]].
+      destruct (H1 cw HcwL) as [z [Hz Ez]]. destruct (cc_of_spec h Hn Hc z Hz) as [cz [E2 [N2 [I2 S2]]]].
+      rewrite Ez in E2. inversion E2; subst cz.
+      rewrite <- Ll. apply Nat.le_trans with (length cw); [|apply maxlen_ge; exact HcwL].
+      apply NoDup_incl_length; [exact Nl|]. intros x Hx. apply S2. apply Sl in Hx. apply S2 in Hwin.
+      eapply reach_trans; eassumption.
+    + rewrite <- Hlen. apply NoDup_incl_length; assumption.
+Qed.
+
+Lemma estimate_SIR_prob_size_spec g p us : wfg g -> gnodes g <> [] ->
+  forall h, percolate_network g p us = Ok h ->
+  gnodes h = gnodes g /\
+  (forall u v, In v (gadj h u) <-> In (u, v) (kept_of p (edges g) us) \/ In (v, u) (kept_of p (edges g) us)) /\
+  exists m, estimate_SIR_prob_size g p us = Ok (frac m (length (gnodes g)), frac m (length (gnodes g))) /\
+    (exists v, In v (gnodes h) /\ card_of (reach (gadj h) v) m) /\
+    (forall v k, In v (gnodes h) -> card_of (reach (gadj h) v) k -> (k <= m)%nat) /\
+    0 <= frac m (length (gnodes g)) /\ frac m (length (gnodes g)) <= 1.
+Proof.
+  intros W Hne h Hh. unfold estimate_SIR_prob_size. rewrite Hh. cbn [rbind].
+  unfold percolate_network in Hh. destruct (perc_edges p (edges g) us []) as [kept|e] eqn:Ek; [|discriminate].
+  cbn in Hh. inversion Hh; subst h. clear Hh.
+  apply perc_edges_spec in Ek. destruct Ek as [Ek _]. cbn in Ek. subst kept.
+  split; [reflexivity|]. split; [intros u v; apply graph_of_adj|].
+  destruct (largest_cc_spec (graph_of (gnodes g) (kept_of p (edges g) us) false)) as [m [Em [Hex [Hmax Hle]]]].
+  - exact (wf_nodes g W).
+  - intros x Hx y Hy. apply graph_of_adj in Hy. cbn [gnodes graph_of].
+    destruct Hy as [Hy|Hy]; apply kept_of_incl in Hy; apply edges_from_In in Hy; destruct Hy as [Ha Hb].
+    + apply (wf_adj_in g W x Ha). exact Hb.
+    + exact Ha.
+  - exact Hne.
+  - exists m. unfold size_answer. rewrite Em. cbn [rbind]. split; [reflexivity|]. split; [exact Hex|]. split; [exact Hmax|].
+    apply frac_01; [exact Hle|]. cbn [gnodes graph_of]. destruct (gnodes g); [contradiction|cbn; lia].
+Qed.
+
+(* bond percolation keeps the relation symmetric: reach is "same component" *)
+Lemma graph_of_undirected_sym nodes es u v :
+  In v (gadj (graph_of nodes es false) u) -> In u (gadj (graph_of nodes es false) v).
+Proof. rewrite !graph_of_adj. tauto. Qed.
+
+(* ---------------- the directed-percolation builders ---------------- *)
+Lemma eqe_spec a b : eqe a b = true <-> a = b.
+Proof.
+  destruct a as [a1 a2], b as [b1 b2]. unfold eqe. cbn. rewrite andb_true_iff, !N.eqb_eq.
+  split; [intros [-> ->]; reflexivity|intro E; inversion E; auto].
+Qed.
+
+Lemma addn_In x l y : In y (addn x l) <-> y = x \/ In y l.
+Proof.
+  unfold addn. destruct (mem x l) eqn:E.
+  - apply mem_In in E. split; [auto|]. intros [->|H]; assumption.
+  - rewrite in_app_iff. cbn. split; [intros [H|[H|[]]]; auto|intros [H|H]; auto].
+Qed.
+
+Lemma addn_NoDup x l : NoDup l -> NoDup (addn x l).
+Proof.
+  intro H. unfold addn. destruct (mem x l) eqn:E; [exact H|]. apply mem_nIn in E.
+  apply nodup_app; [exact H|constructor; [intros []|constructor]|].
+  intros y Hy [Hx|[]]. subst. exact (E Hy).
+Qed.
+
+Lemma adde_In e l e' : In e' (adde e l) <-> e' = e \/ In e' l.
+Proof.
+  unfold adde. destruct (existsb (eqe e) l) eqn:E.
+  - apply existsb_exists in E. destruct E as [x [Hx He]]. apply eqe_spec in He. subst x.
+    split; [auto|]. intros [->|H]; assumption.
+  - rewrite in_app_iff. cbn. split; [intros [H|[H|[]]]; auto|intros [H|H]; auto].
+Qed.
+
+Lemma pe_edges w h u v d e : In e (pg_edges (p_add_edge w h u v d)) <-> e = (u, v) \/ In e (pg_edges h).
+Proof. cbn. apply adde_In. Qed.
+Lemma pe_nodes w h u v d x : In x (pg_nodes (p_add_edge w h u v d)) <-> x = u \/ x = v \/ In x (pg_nodes h).
+Proof. cbn. rewrite !addn_In. tauto. Qed.
+Lemma pe_nodup w h u v d : NoDup (pg_nodes h) -> NoDup (pg_nodes (p_add_edge w h u v d)).
+Proof. intro H. cbn. apply addn_NoDup, addn_NoDup, H. Qed.
+Lemma pn_nodes w h u d x : In x (pg_nodes (p_add_node w h u d)) <-> x = u \/ In x (pg_nodes h).
+Proof. cbn. apply addn_In. Qed.
+Lemma pn_nodup w h u d : NoDup (pg_nodes h) -> NoDup (pg_nodes (p_add_node w h u d)).
+Proof. intro H. cbn. apply addn_NoDup, H. Qed.
+
+(* what it means for a built graph h' to extend h by the arcs u->v, v in nbrs, on which [fire] holds *)
+Definition extends (fire : node -> bool) (u : node) (nbrs : list node) (h h' : pgraph) : Prop :=
+  (forall e, In e (pg_edges h') <-> In e (pg_edges h) \/ exists v, In v nbrs /\ fire v = true /\ e = (u, v)) /\
+  (forall x, In x (pg_nodes h') <-> In x (pg_nodes h) \/ exists v, In v nbrs /\ fire v = true /\ (x = u \/ x = v)) /\
+  (NoDup (pg_nodes h) -> NoDup (pg_nodes h')).
+
+Lemma extends_nil fire u h : extends fire u [] h h.
+Proof.
+  split; [|split]; try (intro; split; [auto|intros [H|[v [[] _]]]; exact H]). auto.
+Qed.
+
+Lemma extends_cons (fire : node -> bool) u v t h h1 h' w d :
+  h1 = (if fire v then p_add_edge w h u v d else h) -> extends fire u t h1 h' -> extends fire u (v :: t) h h'.
+Proof.
+  intros E [He [Hn Hd]]. subst h1. split; [|split].
+  - intro e. rewrite He. destruct (fire v) eqn:F.
+    + rewrite pe_edges. split.
+      * intros [[H|H]|[v' [H1 H2]]]; [right; exists v; split; [left; reflexivity|split; assumption]|left; exact H|].
+        right. exists v'. split; [right; exact H1|exact H2].
+      * intros [H|[v' [[H1|H1] [H2 H3]]]]; [left; right; exact H|subst v'; left; left; exact H3|].
+        right. exists v'. split; [exact H1|split; assumption].
+    + split.
+      * intros [H|[v' [H1 H2]]]; [left; exact H|right; exists v'; split; [right; exact H1|exact H2]].
+      * intros [H|[v' [[H1|H1] [H2 H3]]]]; [left; exact H|subst v'; rewrite F in H2; discriminate|].
+        right. exists v'. split; [exact H1|split; assumption].
+  - intro x. rewrite Hn. destruct (fire v) eqn:F.
+    + rewrite pe_nodes. split.
+      * intros [[H|[H|H]]|[v' [H1 H2]]].
+        -- right. exists v. split; [left; reflexivity|split; [exact F|left; exact H]].
+        -- right. exists v. split; [left; reflexivity|split; [exact F|right; exact H]].
+        -- left. exact H.
+        -- right. exists v'. split; [right; exact H1|exact H2].
+      * intros [H|[v' [[H1|H1] [H2 H3]]]]; [left; right; right; exact H| |].
+        -- subst v'. left. destruct H3 as [H3|H3]; [left; exact H3|right; left; exact H3].
+        -- right. exists v'. split; [exact H1|split; assumption].
+    + split.
+      * intros [H|[v' [H1 H2]]]; [left; exact H|right; exists v'; split; [right; exact H1|exact H2]].
+      * intros [H|[v' [[H1|H1] [H2 H3]]]]; [left; exact H|subst v'; rewrite F in H2; discriminate|].
+        right. exists v'. split; [exact H1|split; assumption].
+  - intro H. apply Hd. destruct (fire v); [apply pe_nodup; exact H|exact H].
+Qed.
+
+(* the whole construction: arcs exactly where the rule fired, nodes = those visited
+   so far and the targets of fired arcs *)
+Definition built (g : graph) (fire : node -> node -> bool) (todo : list node) (h h' : pgraph) : Prop :=
+  (forall a b, In (a, b) (pg_edges h') <-> In (a, b) (pg_edges h) \/ (In a todo /\ In b (gadj g a) /\ fire a b = true)) /\
+  (forall x, In x (pg_nodes h') <-> In x (pg_nodes h) \/ In x todo \/ exists a, In a todo /\ In x (gadj g a) /\ fire a x = true) /\
+  (NoDup (pg_nodes h) -> NoDup (pg_nodes h')).
+
+Lemma built_nil g fire h : built g fire [] h h.
+Proof.
+  split; [|split]; auto.
+  - intros a b. split; [auto|]. intros [H|[[] _]]. exact H.
+  - intro x. split; [auto|]. intros [H|[[]|[a [[] _]]]]. exact H.
+Qed.
+
+Lemma built_cons g (fire : node -> node -> bool) u t h h0 h1 h' w d :
+  h0 = p_add_node w h u d -> extends (fire u) u (gadj g u) h0 h1 -> built g fire t h1 h' ->
+  built g fire (u :: t) h h'.
+Proof.
+  intros E0 [Xe [Xn Xd]] [Be [Bn Bd]]. subst h0. split; [|split].
+  - intros a b. rewrite Be, Xe. cbn [pg_edges p_add_node]. split.
+    + intros [[H|[v [H1 [H2 H3]]]]|[H1 H2]]; [left; exact H| |right; split; [right; exact H1|exact H2]].
+      inversion H3; subst. right. split; [left; reflexivity|split; assumption].
+    + intros [H|[[H1|H1] [H2 H3]]]; [left; left; exact H| |right; split; [exact H1|split; assumption]].
+      subst a. left. right. exists b. split; [exact H2|split; [exact H3|reflexivity]].
+  - intro x. rewrite Bn, Xn, pn_nodes. split.
+    + intros [[[H|H]|[v [H1 [H2 [H3|H3]]]]]|[H|[a [H1 H2]]]].
+      * subst. right. left. left. reflexivity.
+      * left. exact H.
+      * subst. right. left. left. reflexivity.
+      * subst. right. right. exists u. split; [left; reflexivity|split; assumption].
+      * right. left. right. exact H.
+      * right. right. exists a. split; [right; exact H1|exact H2].
+    + intros [H|[[H|H]|[a [[H1|H1] [H2 H3]]]]].
+      * left. left. right. exact H.
+      * subst. left. left. left. reflexivity.
+      * right. left. exact H.
+      * subst a. left. right. exists x. split; [exact H2|split; [exact H3|right; reflexivity]].
+      * right. right. exists a. split; [exact H1|split; assumption].
+  - intro H. apply Bd, Xd, pn_nodup, H.
+Qed.
+
+Lemma built_final g fire h : wfg g -> built g fire (gnodes g) pg_empty h ->
+  NoDup (pg_nodes h) /\ (forall x, In x (pg_nodes h) <-> In x (gnodes g)) /\
+  length (pg_nodes h) = length (gnodes g) /\
+  (forall u v, In (u, v) (pg_edges h) <-> In u (gnodes g) /\ In v (gadj g u) /\ fire u v = true).
+Proof.
+  intros W [Be [Bn Bd]].
+  assert (N : NoDup (pg_nodes h)) by (apply Bd; constructor).
+  assert (S : forall x, In x (pg_nodes h) <-> In x (gnodes g)).
+  { intro x. rewrite Bn. cbn. split; [|auto].
+    intros [[]|[H|[a [H1 [H2 _]]]]]; [exact H|]. apply (wf_adj_in g W a H1). exact H2. }
+  split; [exact N|]. split; [exact S|]. split; [apply same_members_length; [exact N|apply (wf_nodes g W)|exact S]|].
+  intros u v. rewrite Be. cbn. tauto.
+Qed.
+
+Section RulesP.
+Variable dur : node -> xtime.
+Variable delay : node -> node -> xtime.
+Definition fired (u v : node) : bool := xle (delay u v) (dur u).
+
+Lemma timing_inner_extends w u : forall nbrs h,
+  extends (fired u) u nbrs h (timing_inner delay w u (dur u) nbrs h).
+Proof.
+  induction nbrs as [|v t IH]; intro h; [apply extends_nil|].
+  cbn. eapply extends_cons; [reflexivity|]. apply IH.
+Qed.
+
+Lemma timing_outer_built g w : forall todo h,
+  built g fired todo h
+    (fold_left (fun h u => timing_inner delay w u (dur u) (gadj g u) (p_add_node w h u (dur u))) todo h).
+Proof.
+  induction todo as [|u t IH]; intro h; [apply built_nil|].
+  cbn. eapply built_cons; [reflexivity|apply timing_inner_extends|apply IH].
+Qed.
+
+(* nonMarkov_directed_percolate_network_with_timing: same nodes as G; u->v iff v is
+   a neighbour of u and the rule fired (delay <= duration) *)
+Lemma nm_perc_timing_spec g w : wfg g ->
+  let h := nm_perc_timing dur delay g w in
+  NoDup (pg_nodes h) /\ (forall x, In x (pg_nodes h) <-> In x (gnodes g)) /\
+  length (pg_nodes h) = length (gnodes g) /\
+  (forall u v, In (u, v) (pg_edges h) <-> In u (gnodes g) /\ In v (gadj g u) /\ xle (delay u v) (dur u) = true).
+Proof.
+  intros W h. apply (built_final g fired h W). apply timing_outer_built.
+Qed.
+
+Lemma timing_inner_cons w u du v t h :
+  timing_inner delay w u du (v :: t) h =
+  timing_inner delay w u du t (if xle (delay u v) du then p_add_edge w h u v (delay u v) else h).
+Proof. reflexivity. Qed.
+
+(* attributes: what is recorded is what the rules returned *)
+Lemma timing_inner_attr w u : forall nbrs h,
+  pg_dur (timing_inner delay w u (dur u) nbrs h) = pg_dur h /\
+  (forall a b d, In (a, b, d) (pg_delay (timing_inner delay w u (dur u) nbrs h)) ->
+                 In (a, b, d) (pg_delay h) \/ (w = true /\ a = u /\ In b nbrs /\ d = delay u b /\ fired u b = true)).
+Proof.
+  induction nbrs as [|v t IH]; intro h; [cbn; split; [reflexivity|auto]|].
+  rewrite timing_inner_cons.
+  destruct (IH (if xle (delay u v) (dur u) then p_add_edge w h u v (delay u v) else h)) as [I1 I2].
+  split.
+  - rewrite I1. destruct (xle (delay u v) (dur u)); reflexivity.
+  - intros a b d H. apply I2 in H. destruct H as [H|[H1 [H2 [H3 [H4 H5]]]]]; [|right; split; [exact H1|split; [exact H2|split; [right; exact H3|split; assumption]]]].
+    destruct (xle (delay u v) (dur u)) eqn:F; [|left; exact H].
+    cbn in H. destruct w; [|left; exact H].
+    apply in_app_or in H. destruct H as [H|[H|[]]].
+    + apply filter_In in H. left. exact (proj1 H).
+    + inversion H; subst. right. repeat split; auto. left. reflexivity.
+Qed.
+
+Lemma nm_perc_timing_attr g w :
+  let h := nm_perc_timing dur delay g w in
+  (forall u d, In (u, d) (pg_dur h) -> w = true /\ In u (gnodes g) /\ d = dur u) /\
+  (forall u v d, In (u, v, d) (pg_delay h) -> w = true /\ In u (gnodes g) /\ In v (gadj g u) /\ d = delay u v /\ xle d (dur u) = true).
+Proof.
+  cbn zeta. unfold nm_perc_timing.
+  assert (K : forall todo h,
+     let h' := fold_left (fun h u => timing_inner delay w u (dur u) (gadj g u) (p_add_node w h u (dur u))) todo h in
+     (forall u d, In (u, d) (pg_dur h') -> In (u, d) (pg_dur h) \/ (w = true /\ In u todo /\ d = dur u)) /\
+     (forall u v d, In (u, v, d) (pg_delay h') -> In (u, v, d) (pg_delay h) \/
+                    (w = true /\ In u todo /\ In v (gadj g u) /\ d = delay u v /\ xle d (dur u) = true))).
+  { induction todo as [|a t IH]; intro h; cbn zeta; cbn [fold_left]; [split; auto|].
+    destruct (IH (timing_inner delay w a (dur a) (gadj g a) (p_add_node w h a (dur a)))) as [I1 I2].
+    destruct (timing_inner_attr w a (gadj g a) (p_add_node w h a (dur a))) as [A1 A2].
+    split.
+    - intros u d H. apply I1 in H. destruct H as [H|[H1 [H2 H3]]]; [|right; split; [exact H1|split; [right; exact H2|exact H3]]].
+      rewrite A1 in H. cbn in H. destruct w; [|left; exact H].
+      apply in_app_or in H. destruct H as [H|[H|[]]].
+      + apply filter_In in H. left. exact (proj1 H).
+      + inversion H; subst. right. split; [reflexivity|split; [left; reflexivity|reflexivity]].
+    - intros u v d H. apply I2 in H. destruct H as [H|[H1 [H2 H3]]]; [|right; split; [exact H1|split; [right; exact H2|exact H3]]].
+      apply A2 in H. destruct H as [H|[H1 [H2 [H3 [H4 H5]]]]]; [left; exact H|].
+      subst. right. split; [reflexivity|split; [left; reflexivity|split; [exact H3|split; [reflexivity|exact H5]]]]. }
+  destruct (K (gnodes g) pg_empty) as [K1 K2]. split.
+  - intros u d H. apply K1 in H. destruct H as [[]|H]. exact H.
+  - intros u v d H. apply K2 in H. destruct H as [[]|H]. exact H.
+Qed.
+
+(* every arc of G is put to the rule exactly once, every node once *)
+Lemma nm_perc_timing_calls_spec g : wfg g ->
+  (forall u, In (CallRec u) (nm_perc_timing_calls g) <-> In u (gnodes g)) /\
+  (forall u v, In (CallTrans u v) (nm_perc_timing_calls g) <-> In u (gnodes g) /\ In v (gadj g u)).
+Proof.
+  intros W. unfold nm_perc_timing_calls. split.
+  - intro u. rewrite in_flat_map. split.
+    + intros [a [Ha [H|H]]]; [inversion H; subst; exact Ha|]. apply in_map_iff in H. destruct H as [x [E _]]. discriminate.
+    + intro H. exists u. split; [exact H|left; reflexivity].
+  - intros u v. rewrite in_flat_map. split.
+    + intros [a [Ha [H|H]]]; [discriminate|]. apply in_map_iff in H. destruct H as [x [E Hx]]. inversion E; subst. split; assumption.
+    + intros [H1 H2]. exists u. split; [exact H1|right]. apply in_map. exact H2.
+Qed.
+End RulesP.
+
+Section Rules2P.
+Variables X Z : Type.
+Variable xi : node -> option X.
+Variable zeta : node -> option Z.
+Variable transmission : X -> Z -> bool.
+
+Definition fired2 (u v : node) : bool :=
+  match xi u, zeta v with Some a, Some b => transmission a b | _, _ => false end.
+
+Lemma nm_inner_extends u : forall nbrs h h',
+  nm_inner X Z xi zeta transmission u nbrs h = Ok h' -> extends (fired2 u) u nbrs h h'.
+Proof.
+  induction nbrs as [|v t IH]; intros h h' H; cbn in H.
+  - inversion H; subst. apply extends_nil.
+  - destruct (xi u) as [a|] eqn:Ex; [|discriminate]. destruct (zeta v) as [b|] eqn:Ez; [|discriminate].
+    eapply extends_cons with (w := false) (d := None); [|apply IH; exact H].
+    unfold fired2. rewrite Ex, Ez. reflexivity.
+Qed.
+
+Lemma nm_outer_built g : forall todo h h',
+  nm_outer X Z xi zeta transmission g todo h = Ok h' -> built g fired2 todo h h'.
+Proof.
+  induction todo as [|u t IH]; intros h h' H; cbn in H.
+  - inversion H; subst. apply built_nil.
+  - destruct (nm_inner X Z xi zeta transmission u (gadj g u) (p_add_node false h u None)) as [h1|e] eqn:E1; [|discriminate].
+    cbn in H. eapply built_cons; [reflexivity|apply nm_inner_extends; exact E1|apply IH; exact H].
+Qed.
+
+(* nonMarkov_directed_percolate_network: same nodes; u->v iff transmission(xi[u],zeta[v]) *)
+Lemma nm_perc_spec g h : wfg g -> nm_perc X Z xi zeta transmission g = Ok h ->
+  NoDup (pg_nodes h) /\ (forall x, In x (pg_nodes h) <-> In x (gnodes g)) /\
+  length (pg_nodes h) = length (gnodes g) /\
+  (forall u v, In (u, v) (pg_edges h) <->
+     In u (gnodes g) /\ In v (gadj g u) /\ exists a b, xi u = Some a /\ zeta v = Some b /\ transmission a b = true).
+Proof.
+  intros W H. destruct (built_final g fired2 h W (nm_outer_built g _ _ _ H)) as [A [B [C D]]].
+  split; [exact A|]. split; [exact B|]. split; [exact C|].
+  intros u v. rewrite D. unfold fired2. split.
+  - intros [H1 [H2 H3]]. split; [exact H1|]. split; [exact H2|].
+    destruct (xi u) as [a|]; [|discriminate]. destruct (zeta v) as [b|]; [|discriminate]. exists a, b. auto.
+  - intros [H1 [H2 [a [b [Ea [Eb T]]]]]]. rewrite Ea, Eb. auto.
+Qed.
+
+(* it succeeds when the dicts cover the nodes, and the only failure is a KeyError *)
+Lemma nm_inner_total u : forall nbrs h, xi u <> None -> (forall v, In v nbrs -> zeta v <> None) ->
+  exists h', nm_inner X Z xi zeta transmission u nbrs h = Ok h'.
+Proof.
+  induction nbrs as [|v t IH]; intros h Hx Hz; cbn; [eexists; reflexivity|].
+  destruct (xi u) as [a|] eqn:Ex; [|contradiction]. destruct (zeta v) as [b|] eqn:Ez; [|exfalso; apply (Hz v (or_introl eq_refl)); exact Ez].
+  apply IH; [discriminate|intros v' Hv'; apply Hz; right; exact Hv'].
+Qed.
+
+Lemma nm_perc_total g : wfg g -> (forall u, In u (gnodes g) -> xi u <> None /\ zeta u <> None) ->
+  exists h, nm_perc X Z xi zeta transmission g = Ok h.
+Proof.
+  intros W Hk. unfold nm_perc.
+  assert (K : forall todo h, incl todo (gnodes g) -> exists h', nm_outer X Z xi zeta transmission g todo h = Ok h').
+  { induction todo as [|u t IH]; intros h Hi; cbn; [eexists; reflexivity|].
+    destruct (nm_inner_total u (gadj g u) (p_add_node false h u None)) as [h1 E1].
+    - apply Hk. apply Hi. left. reflexivity.
+    - intros v Hv. apply Hk. apply (wf_adj_in g W u); [apply Hi; left; reflexivity|exact Hv].
+    - rewrite E1. cbn. apply IH. intros x Hx. apply Hi. right. exact Hx. }
+  apply K. apply incl_refl.
+Qed.
+
+Lemma nm_perc_err g e : nm_perc X Z xi zeta transmission g = Err e -> e = KeyErr.
+Proof.
+  unfold nm_perc.
+  assert (I : forall u nbrs h, nm_inner X Z xi zeta transmission u nbrs h = Err e -> e = KeyErr).
+  { induction nbrs as [|v t IH]; intros h H; cbn in H; [discriminate|].
+    destruct (xi u); [|inversion H; reflexivity]. destruct (zeta v); [|inversion H; reflexivity]. eapply IH; exact H. }
+  assert (K : forall todo h, nm_outer X Z xi zeta transmission g todo h = Err e -> e = KeyErr).
+  { induction todo as [|u t IH]; intros h H; cbn in H; [discriminate|].
+    destruct (nm_inner X Z xi zeta transmission u (gadj g u) (p_add_node false h u None)) as [h1|e1] eqn:E1.
+    - cbn in H. eapply IH; exact H.
+    - cbn in H. inversion H; subst. eapply I; exact E1. }
+  apply K.
+Qed.
+End Rules2P.
+
+(* ---------------- directed_percolate_network (Markovian rules, sampler program) ---------------- *)
+(* a property of every value the program can return, whatever the draws *)
+Inductive always {A} (P : A -> Prop) : samp A -> Prop :=
+| al_ret a : P a -> always P (Ret a)
+| al_fail e : always P (Fail e)
+| al_expo r k : (forall d, always P (k d)) -> always P (Expo r k)
+| al_flip p a b : always P a -> always P b -> always P (Flip p a b)
+| al_casc ps k : (forall i, always P (k i)) -> always P (Casc ps k)
+| al_choose w c k : (forall x, always P (k x)) -> always P (Choose w c k)
+| al_unif c k : (forall x, always P (k x)) -> always P (Unif c k)
+| al_sample pop n k : (forall l, always P (k l)) -> always P (Sample pop n k).
+
+Lemma exec_always {A} (P : A -> Prop) (m : samp A) : always P m ->
+  forall ds tr a tr', exec m ds tr = (Ok a, tr') -> P a.
+Proof.
+  induction 1 as [a Ha|e|r k _ IH|p a b _ IHa _ IHb|ps k _ IH|w c k _ IH|c k _ IH|pop n k _ IH];
+    intros ds tr x tr' E; cbn [exec] in E.
+  - inversion E; subst. exact Ha.
+  - discriminate.
+  - destruct (Qeqb r 0); [discriminate|]. destruct ds as [|d ds']; [discriminate|]. eapply IH; exact E.
+  - destruct ds as [|d ds']; [discriminate|]. destruct (Qltb d p); [eapply IHa|eapply IHb]; exact E.
+  - destruct ds as [|d ds']; [discriminate|]. eapply IH; exact E.
+  - destruct (choose_exec w c ds tr) as [[[y|e] tr1] ds1]; [eapply IH; exact E|discriminate].
+  - destruct c as [|c0 c']; [discriminate|]. destruct ds as [|d ds']; [discriminate|].
+    destruct (nth_error (c0 :: c') (rank d)); [eapply IH; exact E|discriminate].
+  - destruct (Nat.ltb (length pop) n); [discriminate|]. destruct ds as [|d ds']; [discriminate|]. eapply IH; exact E.
+Qed.
+
+Lemma always_bind {A B} (Q : A -> Prop) (P : B -> Prop) (m : samp A) (f : A -> samp B) :
+  always Q m -> (forall a, Q a -> always P (f a)) -> always P (bind m f).
+Proof.
+  intros Hm Hf. induction Hm; cbn; try (constructor; auto; fail). apply Hf. assumption.
+Qed.
+
+Lemma always_draw_time {A} (P : A -> Prop) rate (k : xtime -> samp A) :
+  (forall d, always P (k d)) -> always P (draw_time rate k).
+Proof.
+  intro H. unfold draw_time. destruct (Qltb 0 rate); [constructor; intro d; apply H|apply H].
+Qed.
+
+Definition shape_inner (u : node) (nbrs : list node) (h h' : pgraph) : Prop :=
+  (forall e, In e (pg_edges h') -> In e (pg_edges h) \/ exists v, In v nbrs /\ e = (u, v)) /\
+  (forall x, In x (pg_nodes h') -> In x (pg_nodes h) \/ x = u \/ In x nbrs) /\
+  incl (pg_nodes h) (pg_nodes h') /\ (NoDup (pg_nodes h) -> NoDup (pg_nodes h')).
+
+Lemma always_weaken {A} (Q P : A -> Prop) (m : samp A) :
+  always Q m -> (forall a, Q a -> P a) -> always P m.
+Proof.
+  intros Hm Hf. induction Hm; try (constructor; auto; fail).
+Qed.
+
+Lemma dpn_inner_shape tau w u du : forall nbrs h,
+  always (shape_inner u nbrs h) (dpn_inner tau w u du nbrs h).
+Proof.
+  induction nbrs as [|v t IH]; intro h; cbn.
+  - constructor. split; [auto|]. split; [auto|]. split; [apply incl_refl|auto].
+  - apply always_draw_time. intro d.
+    eapply always_weaken; [apply IH|]. intros h' [A [B [C D]]].
+    destruct (xle d du).
+    + split; [|split; [|split]].
+      * intros e He. apply A in He. destruct He as [He|[v' [H1 H2]]].
+        -- apply pe_edges in He. destruct He as [He|He]; [right; exists v; split; [left; reflexivity|exact He]|left; exact He].
+        -- right. exists v'. split; [right; exact H1|exact H2].
+      * intros x Hx. apply B in Hx. destruct Hx as [Hx|[Hx|Hx]]; [|right; left; exact Hx|right; right; right; exact Hx].
+        apply pe_nodes in Hx. destruct Hx as [Hx|[Hx|Hx]]; [right; left; exact Hx|right; right; left; symmetry; exact Hx|left; exact Hx].
+      * intros x Hx. apply C. apply pe_nodes. right. right. exact Hx.
+      * intro N. apply D. apply pe_nodup. exact N.
+    + split; [|split; [|split]].
+      * intros e He. apply A in He. destruct He as [He|[v' [H1 H2]]]; [left; exact He|right; exists v'; split; [right; exact H1|exact H2]].
+      * intros x Hx. apply B in Hx. destruct Hx as [Hx|[Hx|Hx]]; [left; exact Hx|right; left; exact Hx|right; right; right; exact Hx].
+      * exact C.
+      * exact D.
+Qed.
+
+Definition shape (g : graph) (todo : list node) (h h' : pgraph) : Prop :=
+  (forall a b, In (a, b) (pg_edges h') -> In (a, b) (pg_edges h) \/ (In a todo /\ In b (gadj g a))) /\
+  (forall x, In x (pg_nodes h') -> In x (pg_nodes h) \/ In x todo \/ exists a, In a todo /\ In x (gadj g a)) /\
+  (forall x, In x (pg_nodes h) \/ In x todo -> In x (pg_nodes h')) /\
+  (NoDup (pg_nodes h) -> NoDup (pg_nodes h')).
+
+Lemma dpn_outer_shape g tau gamma w : forall todo h,
+  always (shape g todo h) (dpn_outer g tau gamma w todo h).
+Proof.
+  induction todo as [|u t IH]; intro h; cbn.
+  - constructor. split; [auto|]. split; [auto|]. split; [intros x [H|[]]; exact H|auto].
+  - apply always_draw_time. intro du.
+    eapply always_bind; [apply dpn_inner_shape|]. intros h1 [A [B [C D]]].
+    eapply always_weaken; [apply IH|]. intros h' [A' [B' [C' D']]].
+    split; [|split; [|split]].
+    + intros a b He. apply A' in He. destruct He as [He|[H1 H2]]; [|right; split; [right; exact H1|exact H2]].
+      apply A in He. cbn [pg_edges p_add_node] in He. destruct He as [He|[v [H1 H2]]]; [left; exact He|].
+      inversion H2; subst. right. split; [left; reflexivity|exact H1].
+    + intros x Hx. apply B' in Hx. destruct Hx as [Hx|[Hx|[a [H1 H2]]]].
+      * apply B in Hx. destruct Hx as [Hx|[Hx|Hx]].
+        -- apply pn_nodes in Hx. destruct Hx as [Hx|Hx]; [right; left; left; symmetry; exact Hx|left; exact Hx].
+        -- right. left. left. symmetry. exact Hx.
+        -- right. right. exists u. split; [left; reflexivity|exact Hx].
+      * right. left. right. exact Hx.
+      * right. right. exists a. split; [right; exact H1|exact H2].
+    + intros x [Hx|[Hx|Hx]]; apply C'.
+      * left. apply C. apply pn_nodes. right. exact Hx.
+      * left. apply C. apply pn_nodes. left. symmetry. exact Hx.
+      * right. exact Hx.
+    + intro N. apply D', D, pn_nodup, N.
+Qed.
+
+(* whatever is drawn: the nodes of G, and only arcs of G *)
+Lemma directed_percolate_network_shape g tau gamma w : wfg g ->
+  forall ds tr h tr', exec (directed_percolate_network g tau gamma w) ds tr = (Ok h, tr') ->
+  NoDup (pg_nodes h) /\ (forall x, In x (pg_nodes h) <-> In x (gnodes g)) /\
+  length (pg_nodes h) = length (gnodes g) /\
+  (forall u v, In (u, v) (pg_edges h) -> In u (gnodes g) /\ In v (gadj g u)).
+Proof.
+  intros W ds tr h tr' E.
+  destruct (exec_always _ _ (dpn_outer_shape g tau gamma w (gnodes g) pg_empty) ds tr h tr' E) as [A [B [C D]]].
+  assert (N : NoDup (pg_nodes h)) by (apply D; constructor).
+  assert (S : forall x, In x (pg_nodes h) <-> In x (gnodes g)).
+  { intro x. split.
+    - intro Hx. apply B in Hx. destruct Hx as [[]|[Hx|[a [H1 H2]]]]; [exact Hx|]. apply (wf_adj_in g W a H1). exact H2.
+    - intro Hx. apply C. right. exact Hx. }
+  split; [exact N|]. split; [exact S|]. split; [apply same_members_length; [exact N|apply (wf_nodes g W)|exact S]|].
+  intros u v He. apply A in He. destruct He as [[]|He]. exact He.
+Qed.
